@@ -824,6 +824,192 @@ pub fn overload_handoff_programs() -> Vec<Program> {
     out
 }
 
+/// Larger configurations than the generators reach: more threads, more spans per trace, deeper
+/// nesting, longer parent lists, many traces ending in one cycle, many quiet cycles in a trace's
+/// life. Each is one program (x every placement of its collector cycles); they run under the rules
+/// of every property that uses the universal family.
+pub fn big_programs() -> Vec<Program> {
+    let mut out = Vec::new();
+    // (1) three worker threads that trace one after the other, the first two exit before the
+    // collector's first cycle, the third keeps tracing afterwards; the root lives on a fourth
+    {
+        let m = vec![root(0, "r", 0xB16), sig(1), wait(6), finish(0)];
+        let t1 = vec![wait(1), child(1, "a", 0), finish(1), sig(2)];
+        let t2 = vec![wait(2), child(2, "b", 0), scope(2), lenter("b.l"), pop(), pop(), finish(2), sig(3)];
+        let t3 = vec![wait(3), child(3, "c1", 0), finish(3), sig(4), wait(5), child(4, "c2", 0), scope(4), lenter("c2.l"), levent("c2.e"), pop(), pop(), finish(4), sig(6)];
+        let mut p = Program::new("BIG-threads#1").worker("M", m).worker("T1", t1).worker("T2", t2).worker("T3", t3);
+        // (explored with a preemption bound, see `plans.rs`: it comes first in the list)
+        p.actors.push(Actor {
+            name: "collector".into(),
+            kind: ActorKind::Collector { atomic: true, pop_yields: 0 },
+            ops: vec![Op::Wait(4), Op::Cycle, Op::Signal(5), Op::Cycle],
+            after_exit_of: None,
+        });
+        out.push(p);
+    }
+    // (2) a deep and wide tree on one thread: 4 levels of thread-safe spans (15 of them), local
+    // nesting of depth 5 with attachments at every level, a dozen sibling local spans
+    {
+        let mut ops = vec![root(0, "r", 0xB17)];
+        let mut slot = 1u32;
+        let mut level: Vec<u32> = vec![0];
+        for depth in 0..3 {
+            let mut next = Vec::new();
+            for p in &level {
+                for k in 0..2 {
+                    ops.push(child(slot, &format!("s{depth}.{slot}.{k}"), *p));
+                    next.push(slot);
+                    slot += 1;
+                }
+            }
+            level = next;
+        }
+        ops.push(scope(level[0]));
+        for d in 0..5 {
+            ops.push(lenter(&format!("d{d}")));
+            ops.push(lprop(&format!("dk{d}"), &format!("dv{d}")));
+            ops.push(levent(&format!("de{d}")));
+        }
+        for _ in 0..5 {
+            ops.push(pop());
+        }
+        for k in 0..12 {
+            ops.push(lenter(&format!("w{k}")));
+            if k % 3 == 0 {
+                ops.push(levent(&format!("we{k}")));
+            }
+            ops.push(pop());
+        }
+        ops.push(lchild(slot, "lc"));
+        ops.push(finish(slot));
+        ops.push(pop());
+        for s in (1..slot).rev() {
+            ops.push(finish(s));
+        }
+        ops.push(finish(0));
+        out.push(Program::new("BIG-tree#1").worker("A", ops).collector(1, true, 0));
+    }
+    // (3) five roots (one of them unsampled), a span with all five as parents, a child of it, a
+    // scope with local spans and attachments, attachments by handle; roots finished first / last
+    for roots_first in [false, true] {
+        let mut ops = Vec::new();
+        for k in 0..5u32 {
+            ops.push(Op::Root { slot: k, name: format!("r{k}"), trace: U128(0xB20 + k as u128), remote_parent: 0, sampled: k != 3, props: vec![] });
+        }
+        ops.push(child_of(10, "m", &[0, 1, 2, 3, 4]));
+        ops.push(child(11, "mc", 10));
+        ops.push(scope(11));
+        ops.push(lenter("l1"));
+        ops.push(levent("l1.e"));
+        ops.push(lenter("l2"));
+        ops.push(lprop("l2.k", "l2.v"));
+        ops.push(pop());
+        ops.push(pop());
+        ops.push(pop());
+        ops.push(addprop(10, "m.k", "m.v"));
+        ops.push(addevent(11, "mc.e"));
+        if roots_first {
+            for k in 0..5 {
+                ops.push(finish(k));
+            }
+        }
+        ops.push(finish(11));
+        ops.push(finish(10));
+        if !roots_first {
+            for k in 0..5 {
+                ops.push(finish(k));
+            }
+        }
+        out.push(Program::new(format!("BIG-parents#{}", roots_first as u32)).worker("A", ops).collector(1, true, 0));
+    }
+    // (4) twenty traces (root, child, local span) that all end between two cycles
+    {
+        let mut ops = Vec::new();
+        for k in 0..20u32 {
+            ops.push(root(k, &format!("t{k}"), 0xB40 + k as u128));
+            ops.push(child(100 + k, &format!("t{k}.c"), k));
+        }
+        for k in 0..20u32 {
+            ops.push(scope(100 + k));
+            ops.push(lenter(&format!("t{k}.l")));
+            ops.push(pop());
+            ops.push(pop());
+            ops.push(finish(100 + k));
+        }
+        for k in 0..20u32 {
+            ops.push(finish(k));
+        }
+        out.push(Program::new("BIG-traces#1").worker("A", ops).collector(0, true, 0));
+    }
+    // (5) a trace that stays open and quiet over a dozen collector cycles, then gets attachments by
+    // handle and through the local parent, a late child, and ends
+    {
+        let mut ops = vec![root(0, "r", 0xB60), child(1, "c", 0)];
+        for _ in 0..12 {
+            ops.push(Op::Cycle);
+        }
+        ops.extend([addprop(1, "late.k", "late.v"), addevent(0, "late.e"), scope(1), lprop("late.lk", "late.lv"), lenter("late.l"), levent("late.le"), pop(), pop(), child(2, "late.c", 0), finish(2), finish(1)]);
+        for _ in 0..3 {
+            ops.push(Op::Cycle);
+        }
+        ops.push(finish(0));
+        out.push(Program::new("BIG-quiet#1").worker("A", ops).collector(0, true, 0));
+    }
+    // (6) one trace with 600 spans finished before its root, all delivered by one cycle
+    {
+        let mut ops = vec![root(0, "r", 0xB70)];
+        for k in 0..600u32 {
+            ops.push(child(1 + k, &format!("k{k}"), 0));
+            ops.push(finish(1 + k));
+        }
+        ops.push(finish(0));
+        out.push(Program::new("BIG-records#1").worker("A", ops).collector(0, true, 0));
+    }
+    out
+}
+
+/// C09 / C04: many forced commands parked in one queue-full episode (twenty roots finished and one
+/// cancelled while the ring is full), then the drain and a fresh trace.
+pub fn overload_many_parked_programs() -> Vec<Program> {
+    let mut out = Vec::new();
+    for cancel_last in [true, false] {
+        let mut ops = vec![Op::Warm, root(9, "via", 0x9F)];
+        for k in 0..20u32 {
+            ops.push(root(100 + k, &format!("p{k}"), 0x9A00 + k as u128));
+        }
+        ops.push(root(0, "victim", 0x9AFF));
+        ops.push(child(1, "victim.c", 0));
+        ops.push(finish(1));
+        ops.push(Op::Fill { leave: 0, via: 9 });
+        ops.push(sig(40));
+        if !cancel_last {
+            ops.push(cancel(0));
+        }
+        for k in 0..20u32 {
+            ops.push(finish(100 + k));
+        }
+        if cancel_last {
+            ops.push(cancel(0));
+        }
+        ops.push(wait(50));
+        ops.push(child(2, "victim.late", 0));
+        ops.push(finish(2));
+        ops.push(finish(0));
+        ops.push(root(5, "fresh", 0x93));
+        ops.push(finish(5));
+        ops.push(finish(9));
+        let mut p = Program::new(format!("C09-ring-many-parked#{}", cancel_last as u32)).worker("A", ops);
+        p.actors.push(Actor {
+            name: "collector".into(),
+            kind: ActorKind::Collector { atomic: true, pop_yields: 0 },
+            ops: vec![Op::Wait(40), Op::Cycle, Op::Signal(50), Op::Cycle, Op::Cycle],
+            after_exit_of: None,
+        });
+        out.push(p);
+    }
+    out
+}
+
 /// C09: the per-scope span limit.
 pub fn local_limit_programs() -> Vec<Program> {
     let mut out = Vec::new();
